@@ -124,6 +124,13 @@ def gen_case(rng, thorough=False):
     # gradient magnitude regimes (exact powers of two): tiny gradients make factor entries ~1e-10 (exact-zero tests such as
     # check_diagonal must not be replaced by tolerance tests); a large-gradient regime is not used: float noise in the rotated coordinates scales with it
     case["gscale"] = rng.choice([1.0, 1.0, 1.0, 1.0, 2.0 ** -17])
+    # a present gradient that is exactly zero (not absent): factors must still decay, counters advance, momentum moves the block
+    if rng.random() < 0.3 and nsteps >= 3:
+        zs = rng.randrange(1, nsteps)
+        gi = rng.randrange(ngroups)
+        pi = rng.randrange(len(groups[gi]["shapes"]))
+        steps[zs]["zero"] = [[gi, pi]]
+        steps[zs]["present"][gi][pi] = True
     return condition_guard(case)
 
 
@@ -368,7 +375,40 @@ def run(ck: Check) -> None:
             ck.report(None, f"dtype pairing param={a} preconditioner={b}: " + (r["error"] or "; ".join(r["bad_dtypes"][:3]) or f"non-finite parameters or float64 run not reproducible (deviation {r['dev']:.3g})"),
                       {"kind": "dtype-pairing", "case": c, "param_dtype": a, "preconditioner_dtype": b, "result": r})
 
+    gen = cases[ncorpus:]
+    audit = {
+        "tensor order 0": sum(1 for c in gen for g in c["groups"] for sh in g["shapes"] if len(sh) == 0),
+        "tensor order 1": sum(1 for c in gen for g in c["groups"] for sh in g["shapes"] if len(sh) == 1),
+        "tensor order 2": sum(1 for c in gen for g in c["groups"] for sh in g["shapes"] if len(sh) == 2),
+        "tensor order 3": sum(1 for c in gen for g in c["groups"] for sh in g["shapes"] if len(sh) == 3),
+        "tensor order 4": sum(1 for c in gen for g in c["groups"] for sh in g["shapes"] if len(sh) == 4),
+        "size-1 dimensions": sum(1 for c in gen for g in c["groups"] for sh in g["shapes"] if 1 in sh),
+        "two param groups": sum(1 for c in gen if len(c["groups"]) == 2),
+        "group leaving beta3/start unset while overriding betas/freq": sum(1 for c in gen for g in c["groups"][1:] if ("betas" in g.get("overrides", {}) and "beta3" not in g["overrides"]) or ("freq" in g.get("overrides", {}))),
+        "lr/wd/momentum edited between steps": sum(1 for c in gen if any(s.get("edits") for s in c["steps"])),
+        "some gradient absent at some step": sum(1 for c in gen if any(not all(row) for s in c["steps"] for row in s["present"])),
+        "all gradients of a group absent at some step": sum(1 for c in gen if any(not any(row) for s in c["steps"] for row in s["present"])),
+        "present gradient exactly zero": sum(1 for c in gen if any(s.get("zero") for s in c["steps"])),
+        "tiny gradients (2^-17)": sum(1 for c in gen if c.get("gscale", 1.0) != 1.0),
+        "blocked parameters (max_preconditioner_dim <= 3)": sum(1 for c in gen if c["groups"][0]["cfg"]["max_dim"] <= 3),
+        "merge dims off": sum(1 for c in gen if not c["groups"][0]["cfg"]["merge"]),
+        "ignored dims set": sum(1 for c in gen if c["groups"][0]["cfg"]["ignored"]),
+        "all dims ignored": sum(1 for c in gen if len(c["groups"][0]["cfg"]["ignored"]) == 4),
+        "inverse-root override int": sum(1 for c in gen if isinstance(c["groups"][0]["cfg"]["override"], int) and c["groups"][0]["cfg"]["override"] != 0),
+        "inverse-root override per-order list": sum(1 for c in gen if isinstance(c["groups"][0]["cfg"]["override"], list)),
+        "exponent multiplier != 1": sum(1 for c in gen if c["groups"][0]["cfg"].get("expmult", 1.0) != 1.0),
+        "start step not a multiple of the frequency": sum(1 for c in gen if isinstance(c["groups"][0]["cfg"]["start"], int) and c["groups"][0]["cfg"]["start"] > 0 and c["groups"][0]["cfg"]["start"] % c["groups"][0]["cfg"]["freq"] != 0),
+        "start step = inf (grafting only)": sum(1 for c in gen if isinstance(c["groups"][0]["cfg"]["start"], float)),
+        "beta1 = 0 / beta1 > 0 with beta3 != beta1": [sum(1 for c in gen if c["groups"][0]["cfg"]["betas"][0] == 0.0), sum(1 for c in gen if c["groups"][0]["cfg"]["betas"][0] != 0.0 and c["groups"][0]["cfg"]["beta3"] not in (-1.0, c["groups"][0]["cfg"]["betas"][0]))],
+        "beta2 = 1 / < 1": [sum(1 for c in gen if c["groups"][0]["cfg"]["betas"][1] == 1.0), sum(1 for c in gen if c["groups"][0]["cfg"]["betas"][1] < 1.0)],
+        "momentum with dampening and Nesterov": sum(1 for c in gen if c["groups"][0]["cfg"]["momentum"] and c["groups"][0]["cfg"]["dampening"] and c["groups"][0]["cfg"]["nesterov"]),
+        "coupled / decoupled weight decay": [sum(1 for c in gen if c["groups"][0]["cfg"]["wd"] and not c["groups"][0]["cfg"]["decoupled"]), sum(1 for c in gen if c["groups"][0]["cfg"]["wd"] and c["groups"][0]["cfg"]["decoupled"])],
+        "bias correction off": sum(1 for c in gen if not c["groups"][0]["cfg"]["biascorr"]),
+    }
     ck.coverage.update({
+        "quantifier_audit": audit,
+        "not_exercised": ["value-level tie for dtypes other than float64 (errors / dtype tags only)", "bfloat16 preconditioner_dtype and iterative solvers in the dtype sweep (no kernels / legitimate non-convergence)",
+                          "gradients with non-default memory layout (C05 covers the blocking of such gradients)", "histories longer than 10 steps"],
         "dtype_pairings": dt_hist,
         "evaluations": nsteps,
         "distinct_nontrivial": nontrivial,
